@@ -1,5 +1,5 @@
 SPECIFICATION Spec
-CONSTANTS MaxOps = 5
+CONSTANTS MaxOps = 5 RawOps = 7
   Shapes <- ShapesT
   Datas <- DatasT
   Ks <- KsQ
@@ -10,5 +10,5 @@ CONSTANTS MaxOps = 5
   Ahead <- AheadQ
 VIEW View
 INVARIANTS TypeOK RawConservation RawRefines FileRefines ReadRefines FlushComplete
-PROPERTIES RawTiling RawDiscard ReadIsFile EndlExact
+PROPERTIES RawTiling RawPeek RawDiscard ReadIsFile EndlExact
 CHECK_DEADLOCK FALSE
